@@ -191,7 +191,7 @@ def _password(cx, thorough):
     fn = m.func("Password.parse_line", "C08.R5")
     from .. import feat
     subs = feat.sub_calls(fn.body)
-    tmpl = const_str(subs[0][2]) if subs else None
+    tmpl = const_str(feat.resolve_const(m, fn, subs[0][2])) if subs else None
     if tmpl is None:
         cx.unknown(fn, "no literal replacement template")
         return
